@@ -183,15 +183,33 @@ def run(rep, programs):
                 else:
                     ces = lib.controlling_edges(b, item[0])
                     g = tm.operand(b.term(ces[-1][0])["discr"]) if ces else ("k",)
-                found.append((lit, offv, T.show(g)))
+                found.append((lit, offv, T.show(g), g))
+        found_raw = found
+        found = [f[:3] for f in found_raw]
         for lit, offv in checks:
             hit = [f for f in found if f[0] == lit and f[1] == offv]
             rep.check(bool(hit), rule, "order%d|block@%d" % (k, offv), "adds %#x at offset %d under guard %s" % (lit, offv, hit[0][2] if hit else "?"),
                       "order %d: no result that adds %#x at offset %d (found %s)" % (k, lit, offv, found), b.span)
         # guards test exactly the half/whole row for zero
-        for lit, offv, g in found:
-            ok = ("Eq" in g and "0" in g)
-            rep.check(ok, rule, "order%d|guard@%s" % (k, offv), "guarded by a zero test: " + g[:60], "order %d block at %s is guarded by %s" % (k, offv, g), b.span)
+        for lit, offv, g, graw in found_raw:
+            # the guard tests exactly the bits the result adds: (v as u32) == 0 / (v >> 32) == 0 / v & LIT == 0 / v == 0
+            ok = False
+            if graw[0] == "bin" and graw[1] == "Eq" and 0 in (T.const_val(graw[2]), T.const_val(graw[3])):
+                x = graw[3] if T.const_val(graw[2]) == 0 else graw[2]
+                width = {"u8": 8, "u16": 16, "u32": 32, "u64": 64}
+                if lit is not None and offv is not None:
+                    nbits = bin(lit).count("1")
+                    if x[0] == "cast" and x[3] == "IntToInt" and T.canon(x[1]) == ("p", "v"):
+                        ok = offv == 0 and width.get(x[2]) == nbits
+                    elif x[0] == "bin" and x[1] == "Shr" and T.canon(x[2]) == ("p", "v"):
+                        ok = T.const_val(x[3]) == offv and offv + nbits == 64
+                    elif x[0] == "bin" and x[1] == "BitAnd" and ("p", "v") in (T.canon(x[2]), T.canon(x[3])):
+                        ok = lit in (T.const_val(x[2]), T.const_val(x[3]))
+                    elif T.canon(x) == ("p", "v"):
+                        ok = nbits == 64 and offv == 0
+            rep.check(ok, rule, "order%d|guard@%s" % (k, offv), "guarded by a zero test of exactly the block's bits: " + g[:60],
+                      "order %d block at %s is guarded by `%s`, which does not test exactly the %s bits the result sets: a free block is "
+                      "missed or an occupied one is handed out" % (k, offv, g[:80], bin(lit or 0).count("1")), b.span)
     # ---- siblings
     rule2 = "R-ROWTRICK-SIBLINGS"
     rep.rule(rule2, "arms 2,3,4 are the same expression skeleton with (M, shift) = (lane-LSB mask of width 2^k, 2^k - 1)")
